@@ -429,7 +429,9 @@ func (e *Exec) doPersist(c *Cmd) string {
 		return "scripterror:notunpersisted"
 	}
 	p := e.path(c.Pos[1])
-	os.Remove(p)
+	if c.str("keep", "0") != "1" {
+		os.Remove(p)
+	}
 	if v, ok := c.KV["fsize"]; ok {
 		limit, _ := strconv.Atoi(v)
 		full := c.num("full", -1)
@@ -543,7 +545,9 @@ func (e *Exec) doMerge(c *Cmd, gsuffix string) string {
 		drops = append(drops, bm)
 	}
 	p := e.path(c.Pos[0] + gsuffix)
-	os.Remove(p)
+	if c.str("keep", "0") != "1" {
+		os.Remove(p)
+	}
 	mode := e.chunkMode
 	if v, ok := c.KV["mode"]; ok {
 		n, _ := strconv.Atoi(v)
@@ -616,6 +620,9 @@ func (e *Exec) doMerge(c *Cmd, gsuffix string) string {
 		ms = "nil"
 	}
 	e.stat("merge")
+	if c.str("digest", "0") == "1" {
+		extra += " digest=" + fileDigest(p)
+	}
 	return fmt.Sprintf("ok maps=%s szeq=%s reports=%d%s", ms, b01(szeq), rep.n, extra)
 }
 
@@ -1209,11 +1216,17 @@ func (e *Exec) expand(c *Cmd, out *bufio.Writer) {
 			limits[b] = true
 			limits[b+1] = true
 		}
-		for _, l := range sortedInts(limits) {
+		for i, l := range sortedInts(limits) {
 			if l < 0 {
 				continue
 			}
-			emit(fmt.Sprintf("persist %s %s fsize=%d full=%d", seg, file, l, full))
+			if i%3 == 1 {
+				// a file from an earlier successful persist is already at the path
+				emit(fmt.Sprintf("persist %s %s", seg, file))
+				emit(fmt.Sprintf("persist %s %s fsize=%d full=%d keep=1", seg, file, l, full))
+			} else {
+				emit(fmt.Sprintf("persist %s %s fsize=%d full=%d", seg, file, l, full))
+			}
 		}
 		emit(fmt.Sprintf("persist %s %s", seg, file))
 	case "writetofaults":
@@ -1245,13 +1258,14 @@ func (e *Exec) expand(c *Cmd, out *bufio.Writer) {
 		}
 	case "mergefaults", "mergecancel":
 		file := c.Pos[0]
-		base := fmt.Sprintf("merge %s segs=%s drops=%s", file, c.str("segs", "-"), c.str("drops", ""))
-		// fault-free run to learn the size / number of reports
+		base := fmt.Sprintf("merge %s segs=%s drops=%s digest=1", file, c.str("segs", "-"), c.str("drops", ""))
+		// fault-free run first: learns the size / number of reports, and its content digest is the
+		// reference every later successful run of this merge must reproduce
 		cc := parseLine(c.LineNo, base)
 		obs, _ := e.safeExec(cc, e.sl, "")
+		fmt.Fprintln(out, cc.Raw)
+		fmt.Fprintln(out, "r "+obs)
 		if !strings.HasPrefix(obs, "ok") {
-			fmt.Fprintln(out, cc.Raw)
-			fmt.Fprintln(out, "r "+obs)
 			return
 		}
 		st, _ := os.Stat(e.path(file))
@@ -1277,7 +1291,11 @@ func (e *Exec) expand(c *Cmd, out *bufio.Writer) {
 				if l < 0 {
 					continue
 				}
-				emit(fmt.Sprintf("%s fsize=%d full=%d", base, l, full))
+				if l%2 == 1 {
+					emit(fmt.Sprintf("%s fsize=%d full=%d keep=1", base, l, full)) // an older file is at the path
+				} else {
+					emit(fmt.Sprintf("%s fsize=%d full=%d", base, l, full))
+				}
 			}
 		} else {
 			emit(base + " close=before")
@@ -1325,4 +1343,96 @@ func sortedInts(m map[int]bool) []int {
 	}
 	sort.Ints(out)
 	return out
+}
+
+// fileDigest opens a segment file with the current reader and hashes its complete content as
+// seen through the API (fields, dictionaries, postings with all details, stored fields, doc
+// values), so that two outputs of the same merge can be compared although their bytes may
+// differ (sections are written in map order).
+func fileDigest(path string) string {
+	sg, err := (&zap.ZapPlugin{}).Open(path)
+	if err != nil {
+		return "openerr"
+	}
+	defer sg.Close()
+	h := crc32.NewIEEE()
+	w := func(format string, a ...interface{}) { fmt.Fprintf(h, format, a...) }
+	defer func() { recover() }()
+	w("count=%d fields=%v\n", sg.Count(), sg.Fields())
+	fields := append([]string(nil), sg.Fields()...)
+	sort.Strings(fields)
+	for _, f := range fields {
+		d, err := sg.Dictionary(f)
+		if err != nil {
+			w("dicterr %s\n", f)
+			continue
+		}
+		it := d.AutomatonIterator(nil, nil, nil)
+		for {
+			en, err := it.Next()
+			if err != nil || en == nil {
+				break
+			}
+			w("t %s %x %d\n", f, en.Term, en.Count)
+			pl, err := d.PostingsList([]byte(en.Term), nil, nil)
+			if err != nil {
+				w("plerr\n")
+				continue
+			}
+			pi := pl.Iterator(true, true, true, nil)
+			for {
+				p, err := pi.Next()
+				if err != nil || p == nil {
+					break
+				}
+				w("h %s\n", hitString(p))
+			}
+		}
+	}
+	dv, _ := sg.(segment.DocValueVisitable)
+	for n := uint64(0); n < sg.Count(); n++ {
+		sg.VisitStoredFields(n, func(field string, typ byte, value []byte, pos []uint64) bool {
+			w("s %d %s %d %x %v\n", n, field, typ, value, pos)
+			return true
+		})
+		if dv != nil {
+			var got []string
+			dv.VisitDocValues(n, fields, func(field string, term []byte) {
+				got = append(got, fmt.Sprintf("%s=%x", field, term))
+			}, nil)
+			sort.Strings(got)
+			w("dv %d %v\n", n, got)
+		}
+	}
+	if ts, ok := sg.(segment.ThesaurusSegment); ok {
+		for _, f := range fields {
+			th, err := ts.Thesaurus(f)
+			if err != nil || th == nil {
+				continue
+			}
+			ti := th.AutomatonIterator(nil, nil, nil)
+			for {
+				en, err := ti.Next()
+				if err != nil || en == nil {
+					break
+				}
+				sl, err := th.SynonymsList([]byte(en.Term), nil, nil)
+				if err != nil {
+					continue
+				}
+				si := sl.Iterator(nil)
+				var ps []string
+				for {
+					sy, err := si.Next()
+					if err != nil || sy == nil {
+						break
+					}
+					ps = append(ps, fmt.Sprintf("%x:%d", sy.Term(), sy.Number()))
+				}
+				sort.Strings(ps)
+				w("th %s %x %v\n", f, en.Term, ps)
+			}
+		}
+	}
+	return fmt.Sprintf("%08x", h.Sum32())
 }
